@@ -59,7 +59,23 @@ def run(ctx):
                 break
         return out
     a, b = prefix(pf), prefix(tf)
-    if a == b and a and '_get_file_path(item, build_args)' in a[-1]:
+    # the path call receives the item and the build arguments derived above (whatever the locals are called)
+    in_ = (X.names_assigned_from(pf.node, "kwargs.get('item')") or ['item'])[0]
+    bn_ = (X.names_assigned_from(pf.node, "kwargs.get('build_args'") or ['build_args'])[0]
+    # sibling comparison modulo renaming of locals: compare after mapping each function's locals to their definition order
+    def canon_(stmts, f):
+        loc = []
+        for n_ in ast.walk(f.node):
+            if isinstance(n_, ast.Name) and isinstance(n_.ctx, ast.Store) and n_.id not in loc:
+                loc.append(n_.id)
+        out_ = []
+        import re as _re
+        for t_ in stmts:
+            for i_, nm in enumerate(loc):
+                t_ = _re.sub(r'\b%s\b' % _re.escape(nm), f'L{i_}', t_)
+            out_.append(t_)
+        return out_
+    if canon_(a, pf) == canon_(b, tf) and a and f'_get_file_path({in_}, {bn_})' in a[-1]:
         ctx.judge('R1', 'plan_file == transform_file up to the path', facts={'statements': a})
     else:
         diff = [(x, y) for x, y in zip(a, b) if x != y][:2] or [(a[-1:], b[-1:])]
@@ -72,7 +88,7 @@ def run(ctx):
     (ctx.judge('R1', 'transform_file writes to the computed path', facts=kw) if kw.get('path') == pathvar else
      ctx.violation('R1', 'FileWriteTransformation.transform_file:write-path', tf.where, f'the file is written to {kw.get("path")!r}, not {pathvar!r}'))
     # R2
-    store = [n for n in ast.walk(pf.node) if isinstance(n, ast.Assign) and 'item.trafo_data[' in ast.unparse(n.targets[0])]
+    store = [n for n in ast.walk(pf.node) if isinstance(n, ast.Assign) and '.trafo_data[' in ast.unparse(n.targets[0])]
     if not store or not isinstance(store[0].value, ast.Dict):
         raise AnalysisError('plan_file: trafo_data store not found')
     key_w = ast.unparse(store[0].targets[0].slice)
@@ -80,8 +96,8 @@ def run(ctx):
     C = m.get_class(PL, 'CMakePlanTransformation')
     cp = C.function('plan_file')
     reads = [n for n in ast.walk(cp.node) if isinstance(n, ast.Subscript) and isinstance(n.value, ast.Subscript)
-             and 'item.trafo_data' in ast.unparse(n.value.value)]
-    tests = [n for n in ast.walk(cp.node) if isinstance(n, ast.Compare) and 'item.trafo_data' in ast.unparse(n.comparators[0])]
+             and '.trafo_data' in ast.unparse(n.value.value)]
+    tests = [n for n in ast.walk(cp.node) if isinstance(n, ast.Compare) and '.trafo_data' in ast.unparse(n.comparators[0])]
     key_r = {ast.unparse(r.value.slice) for r in reads}
     fld_r = {ast.unparse(r.slice) for r in reads}
     key_t = {ast.unparse(t.left) for t in tests}
@@ -91,21 +107,30 @@ def run(ctx):
      ctx.violation('R2', 'trafo_data:key-agreement', cp.where, f'plan writer and reader disagree: {facts}', facts=facts))
     # R3 truth table
     body = X.body_nodoc(cp.node)
+    # locals of plan_file, identified by what they are bound to
+    itn = (X.names_assigned_from(cp.node, "kwargs.get('item')") or X.names_assigned_from(cp.node, "kwargs['item']") or ['item'])[0]
+    spn = (X.names_assigned_from(cp.node, f'{itn}.path') or ['sourcepath'])[0]
+    sen = (X.names_assigned_from(cp.node, f'{spn}.exists()') or ['source_exists'])[0]
+    osn = (X.names_assigned_from(cp.node, f'{itn}.orig_path') or ['orig_sourcepath'])[0]
+    oen = (X.names_assigned_from(cp.node, f'{osn}.exists()') or ['orig_source_exists'])[0]
+    nsn = (X.names_assigned_from(cp.node, f"{itn}.trafo_data[", "['path']") or ['newsource'])[0]
+    kyn = (X.names_assigned_from(cp.node, f'{itn}.lib') or ['key'])[0]
+    canon = {spn: 'sourcepath', osn: 'orig_sourcepath', nsn: 'newsource', f'{itn}.path': 'item.path'}
 
     def mark(st):
-        return isinstance(st, ast.Expr) and isinstance(st.value, ast.Call) and '.setdefault(key, []).append(' in ast.unparse(st.value)
+        return isinstance(st, ast.Expr) and isinstance(st.value, ast.Call) and f'.setdefault({kyn}, []).append(' in ast.unparse(st.value)
     rows = bad = 0
     example = None
     for env, label, marks in BF.truth_table(body, is_mark=mark):
-        if env.get("'FileWriteTransformation' in item.trafo_data") is False or env.get('item') is False:
+        if env.get(f"'FileWriteTransformation' in {itn}.trafo_data") is False or env.get(itn) is False:
             continue
-        if env.get('newsource in self.sources_to_append'):
+        if env.get(f'{nsn} in self.sources_to_append'):
             continue
         rows += 1
-        ex = env.get('source_exists')
-        rep = env.get('item.replicate')
-        oex = env.get('orig_source_exists')
-        got = sorted(ast.unparse(s.value).split('.')[1] + ':' + ast.unparse(s.value.args[0]) for s in marks)
+        ex = env.get(sen)
+        rep = env.get(f'{itn}.replicate')
+        oex = env.get(oen)
+        got = sorted(ast.unparse(s.value).split('.')[1] + ':' + canon.get(ast.unparse(s.value.args[0]), ast.unparse(s.value.args[0])) for s in marks)
         want = ['sources_to_append:newsource']
         if ex:
             want.append('sources_to_transform:sourcepath')
